@@ -2,8 +2,8 @@
 From Coq Require Import List Bool Arith NArith ZArith String Ascii.
 From Coq.Strings Require Import Byte.
 From Verif.Base Require Import Bytes Outcome Str.
-From Verif.Model Require Import IE Codec Record SetB Msg Exporter Rfc7011.
-From Verif.Driver Require Import Show SetShow HistShow RfcCheck.
+From Verif.Model Require Import IE Codec Record SetB Msg Exporter ExpObj Rfc7011.
+From Verif.Driver Require Import Show SetShow HistShow HistObj RfcCheck.
 Import ListNotations.
 Local Open Scope N_scope.
 
@@ -22,21 +22,73 @@ Fixpoint c02_walk (sends : list (list dop)) (os : list sobs) : bool :=
   | _, _ => false
   end.
 
-Definition C02_holds_on (c : hcase) (o : list sobs * fobs) : bool := c02_walk (hc_sends c) (fst o).
+(* the histories of Driver/HistShow.v (one fresh set per send): kept for C09, whose clause (d)
+   is this walk *)
+Definition C02_holds_on_h (c : hcase) (o : list sobs * fobs) : bool := c02_walk (hc_sends c) (fst o).
 
-Definition c02_wf (c : hcase) (os : list sobs) : bool :=
+Definition c02_wf_h (c : hcase) (os : list sobs) : bool :=
   forallb (fun ds => c02_in_scope (set_of (ops_of ds)) && case_set_ok (set_of (ops_of ds))) (hc_sends c) &&
   forallb (fun o => match so_res o with ROk _ => true | _ => false end) os.
 
+(* ---- object-level histories (Model/ExpObj.v): reused sets, shared element objects, refresh ---- *)
+(* one call: the count returned is the number of bytes, and for a set in scope the bytes
+   satisfy the RFC demand phrased from the set as SendSet saw it (the ghost output of the model
+   run: which values the records hold at that moment is a matter of object sharing, not of the
+   encoding) *)
+Definition c02_send_check (s : setb) (o : sobs) : bool :=
+  match so_res o, so_wire o with
+  | ROk n, WFull b => N.eqb n (blen b) && (if c02_in_scope s then rfc_demand s b else true)
+  | ROk _, WNone => false
+  | _, _ => true
+  end.
+(* one refresh message: well-formed for the set MakeTemplateSet builds for a registered template *)
+Definition refresh_demand (p : N * (list ie * N)) (b : list byte) : bool :=
+  match make_template_set (fst p) (fst (snd p)) with
+  | Ok s => if c02_in_scope s then rfc_demand s b else true
+  | _ => false
+  end.
+Definition c02_refresh_check (st : exp) (ws : list wobs) : bool :=
+  forallb (fun w => match w with
+                    | WFull b => existsb (fun p => refresh_demand p b) (x_tpls st)
+                    | WDig _ _ _ => true
+                    | WNone => false
+                    end) ws.
+
+Fixpoint c02g_walk (outs : list gout) (os : list gobs) : bool :=
+  match outs, os with
+  | [], [] => true
+  | OSent _ s _ _ :: ro, GOSend o :: rs => c02_send_check s o && c02g_walk ro rs
+  | ORefresh st _ _ :: ro, GORefresh ws _ :: rs => c02_refresh_check st ws && c02g_walk ro rs
+  | OReconn _ _ :: ro, GOReconn s :: rs => String.eqb s "-" && c02g_walk ro rs
+  | _, _ => false
+  end.
+
+Definition C02_holds_on (c : gcase) (o : list gobs * fobs) : bool := c02g_walk (gouts cur c) (fst o).
+
+(* within the hypotheses of the oracle theorem: every set sent is built with one PrepareSet and
+   typed values (case_set_ok), every registered template can be refreshed *)
+Definition out_in_hyp (o : gout) : bool :=
+  match o with
+  | OSent _ s _ _ => case_set_ok s
+  | ORefresh st _ r => match r with Ok _ => true | _ => negb (x_udp st) end
+  | OReconn _ _ => true
+  end.
+Definition c02_wf_outs (outs : list gout) (os : list gobs) : bool :=
+  forallb out_in_hyp outs &&
+  forallb (fun o => match o with GOSend s => match so_res s with RPanic => false | _ => true end | _ => true end) os.
+Definition c02_wf (c : gcase) (os : list gobs) : bool := c02_wf_outs (gouts cur c) os.
+
+(* the history is run once: [fst p] is [gouts cur c] (HistObj.grun_all_outs) *)
 Definition c02_run (case obs : list string) : string :=
-  match parse_hcase case with
+  match parse_gcase case with
   | Some c =>
-      let m := hist_model cur c in
-      show_hist m ++ " | " ++
-      show_bool (match parse_hobs (S (List.length obs)) obs with
-                 | Some o => C02_holds_on c o
+      let p := grun_all cur c in
+      let m := gmodel_of (gc_full c) p in
+      show_ghist m ++ " | " ++
+      show_bool (match parse_gobs (S (List.length obs)) obs with
+                 | Some o => c02g_walk (fst p) (fst o)
                  | None => false
                  end)
-      ++ " " ++ show_bool (c02_wf c (fst m))
+      ++ " " ++ show_bool (c02_wf_outs (fst p) (fst m))
   | None => "PARSE-ERROR"
   end.
